@@ -3,6 +3,7 @@ package harness
 import (
 	"encoding/json"
 	"fmt"
+	"strconv"
 	"strings"
 	"testing"
 
@@ -104,7 +105,7 @@ func negTokenCase(app *fiber.App, o *out, cs *negCase, n int) (picked bool) {
 		if cs.Pick > 0 {
 			exp = offers[cs.Pick-1]
 		}
-		for style := 0; style < 4; style++ {
+		for style := 0; style < 5; style++ {
 			var parts []string
 			sep, psep := ", ", ";"
 			if (style+n)%4 == 1 {
@@ -122,6 +123,21 @@ func negTokenCase(app *fiber.App, o *out, cs *negCase, n int) (picked bool) {
 			}
 			if (style+n)%4 == 3 && len(parts) > 0 {
 				parts = append(parts, parts[len(parts)-1])
+			}
+			if style == 4 && len(parts) > 0 {
+				// a long list: sixteen ranges that serve no offer, with interleaved qualities, around and between the ranges of the case.
+				// They change nothing (Negotiation.tla: only serving ranges take part in the choice; the order of the others is kept)
+				fills := []string{";q=0.5", ";q=0.9", ";q=0.7", ""}
+				var long []string
+				k := 0
+				for f := 0; f < 16; f++ {
+					long = append(long, "zzfill"+strconv.Itoa(f)+fills[f%4])
+					if f%4 == 1 && k < len(parts) {
+						long = append(long, parts[k])
+						k++
+					}
+				}
+				parts = append(long, parts[k:]...)
 			}
 			hdr := strings.Join(parts, sep)
 			fctx := &fasthttp.RequestCtx{}
